@@ -117,6 +117,42 @@ def nth_element(par, tokens: list, i: int):
     return el
 
 
+def _fresh(stem: str, par) -> str:
+    """a mark name not used yet in the paragraph (names identify start / end pairs)"""
+    used = par.serialize()
+    k = 0
+    while f'"{stem}_{k}"' in used:
+        k += 1
+    return f"{stem}_{k}"
+
+
+def token_index(par, tokens: list, tag: str, attr: str, name: str) -> int:
+    """1-based token index of the element with this tag and name attribute (same walk as project()), 0 if absent"""
+    count = 0
+    found = 0
+
+    def walk(e):
+        nonlocal count, found
+        for ch in e.children:
+            count += 1
+            if ch.tag == tag and ch.get_attribute(attr) == name and not found:
+                found = count
+            if ch.tag in ("text:span", "text:a"):
+                walk(ch)
+
+    walk(par)
+    if not found:
+        return 0
+    # element number -> token number
+    k = 0
+    for idx, t in enumerate(tokens, 1):
+        if t["k"] in ("o", "e"):
+            k += 1
+            if k == found:
+                return idx
+    return 0
+
+
 def apply(par, o: dict, tokens: list, variant: int = 0):
     """Apply one Markup.tla operation through the public API.
     Returns the element to observe afterwards (the paragraph itself, or the
@@ -139,8 +175,9 @@ def apply(par, o: dict, tokens: list, variant: int = 0):
         rx = re.escape(chars(o["p"]))
         kw = {"before": rx} if o["before"] else {"after": rx}
         if o.get("alone") and variant % 4 == 3:
-            par.insert_annotation(body="remark", creator="verif", position=o["nth"], **kw)
-        elif o.get("alone") and variant % 4 == 2 and not o["before"] and o["nth"] == 0:
+            par.insert_annotation(body=(par.inner_text or "remark"), creator="verif", position=o["nth"], **kw)
+        elif o.get("last", o.get("alone")) and variant % 4 == 2 and not o["before"] and o["nth"] == 0:
+            # (a note only as the very last operation: the text of a note is counted by later offsets - documented assumption)
             par.insert_note(after=rx, note_id="note1", citation="1", body="a note")
         elif variant % 2 == 0:
             par.set_bookmark("bm1", position=o["nth"], **kw)
@@ -149,7 +186,7 @@ def apply(par, o: dict, tokens: list, variant: int = 0):
         return par
     if op == "mark_position":
         if o.get("alone") and variant % 3 == 2:
-            par.insert_annotation(body="remark", creator="verif", position=o["pos"])
+            par.insert_annotation(body=(par.inner_text or "remark"), creator="verif", position=o["pos"])
         elif variant % 2 == 0:
             par.set_bookmark("bm2", position=o["pos"])
         else:
@@ -158,30 +195,41 @@ def apply(par, o: dict, tokens: list, variant: int = 0):
     if op == "mark_content":
         rx = re.escape(chars(o["p"]))
         if variant % 3 == 2 and o.get("alone"):
-            par.insert_annotation(body="remark", creator="verif", content=rx, position=o["nth"])
+            par.insert_annotation(body=(par.inner_text or "remark"), creator="verif", content=rx, position=o["nth"])
         elif variant % 2 == 0:
-            par.set_bookmark("bm4", content=rx, position=o["nth"])
+            par.set_bookmark(_fresh("bm4", par), content=rx, position=o["nth"])
         else:
-            par.set_reference_mark("rm4", content=rx, position=o["nth"])
+            par.set_reference_mark(_fresh("rm4", par), content=rx, position=o["nth"])
         return par
     if op == "mark_range":
         pos = (o["a"], o["b"])
         # (an annotation only as the last operation on a paragraph: once it is there, the offsets of later calls
         # count its own text too - documented assumption of C09)
         if variant % 3 == 2 and o.get("alone"):
-            par.insert_annotation(body="remark", creator="verif", position=pos)
+            par.insert_annotation(body=(par.inner_text or "remark"), creator="verif", position=pos)
         elif variant % 2 == 0:
-            par.set_bookmark("bm3", position=pos)
+            par.set_bookmark(_fresh("bm3", par), position=pos)
         else:
-            par.set_reference_mark("rm3", position=pos)
+            par.set_reference_mark(_fresh("rm3", par), position=pos)
         return par
     if op == "strip_tags":
         # keep_heading=False: a heading's own spans are stripped too (the default protects them, as documented)
         return par.remove_spans(keep_heading=False) if o["tag"] == "span" else par.remove_links()
     if op == "delete":
         el = nth_element(par, tokens, o["i"])
-        # (ReferenceMarkStart.delete() is documented as deleting the matching end mark too: the one-element form is used for it)
-        if variant % 2 == 0 and el.tag != "text:reference-mark-start":
+        # ReferenceMarkStart.delete() is documented as deleting the matching end mark too: the operation record then names it
+        if variant % 2 == 0 and el.tag == "text:reference-mark-start":
+            j = token_index(par, tokens, "text:reference-mark-end", "text:name", el.name)
+            if j:
+                o["pair"] = j
+            el.delete()
+        elif variant % 2 == 0 and el.tag == "office:annotation":
+            # Annotation.delete(): documented as deleting its annotation-end too
+            j = token_index(par, tokens, "office:annotation-end", "office:name", el.get_attribute("office:name"))
+            if j:
+                o["pair"] = j
+            el.delete()
+        elif variant % 2 == 0:
             el.delete()
         else:
             el.parent.delete(el)
